@@ -26,7 +26,11 @@ META = {
             "old unique function, every un-merged function found in old_pos or among the appended ones; the map rows of the un-merged functions become the empty row, all others unchanged; "
             "the matches of the un-merged functions become the old position or nuniq + new position, all others unchanged) with a composition lemma: the rewritten unique list is "
             "duplicate-free and every un-merged function's match holds its own string. The file round trips between the regions and the parallel verification loop of check_results are "
-            "covered by the bounded part (corrupted maps, C13/C15).",
+            "covered by the bounded part (corrupted maps, C13/C15). The two literal substitution tables of sympy_simplify are under a row contract, read from the AST on every run: "
+            "a pair combination e(A, B) that is replaced by one parameter attains every real value, one replaced by an absolute value is never negative and attains every positive value "
+            "(the same family of curves); for every single-parameter row [P, R, flag, {a: I}] substituting the recorded map into the pattern gives the replacement, P(I(a)) = R(a), "
+            "P is never negative when R is an absolute value, and I is defined for positive parameters (quantifier-free nonlinear real arithmetic; power laws on positive bases applied "
+            "during translation, A-pow; refuted rows are replayed on the real sympy objects).",
     "note": "Bounded by complexity and bases listed in the evidence; numeric oracle independent of sympy simplification. A-sympy for parsing only.",
     "technique": "contract-based deductive verification of the index bookkeeping (AST->VC->SMT) + bounded stand-in of the library contract on the real code",
 }
@@ -97,6 +101,8 @@ def check(run):
         st, failed, eng = D.verify_function(run, relf, qual, (lambda qual=qual, frag=frag, lists=lists, ints=ints: c_generator.line_writer_contract(qual, frag, lists, ints=ints)),
                                             timeout_ms=10000, tag="writer %s" % frag.rstrip("_"), note="region: the `with open(..., 'w')` block writing %s" % " + ".join(lists))
         failed_all += failed
+    # the literal substitution tables of sympy_simplify: every row is sound (same family of curves / the recorded map reproduces the replacement)
+    tfailed, tunsupported = D.subst_tables(run)
     lfailed0 = D.prove_lemmas(run, "do_sympy: composition with get_unique_indexes", c_dosympy.composition_lemma(), timeout_ms=20000)
     lfailed = D.prove_lemmas(run, "check_results: composition of the un-merge regions", c_checkres.composition_lemmas(), timeout_ms=20000)
     crjob = {"runname": "core_maths", "n": 4, "P_list": [1, 2] if tier == "quick" else [1, 2, 5], "ncorrupt": 6 if tier == "quick" else 12}
@@ -123,5 +129,6 @@ def check(run):
     if failed_all and not run.violations:
         from checks.C14 import report_unproved
         report_unproved(run, failed_all, False, failed_all[0].fn)
+    D.report_subst_tables(run, tfailed, tunsupported)
     return run.finish("other", META["text"], CHECKER,
                       rule="cases = functions whose match/map was checked; distinct_nontrivial = functions with a non-empty recorded map")
